@@ -774,6 +774,12 @@ func (e *Engine) coerceTo(env *Env, v Val, s Sort) *Term {
 		if x.S == SBytes && s == SOpt {
 			return mk(SOpt, "(some "+bstrOf(x.T)+")")
 		}
+	case *ArrayV:
+		if s == SStr {
+			if t, ok := e.arrayAsStr(env.st, x); ok {
+				return mk(SStr, t.T)
+			}
+		}
 	case *NilV:
 		switch s {
 		case SErr:
